@@ -25,7 +25,7 @@ from .streams import AskedForever, Runaway
 
 class SimFile(object):
     def __init__(self, name, log, screen=None, encoding="utf-8", on_write=None, max_calls=50000,
-                 write_through=False, on_call=None, strict=True, short_write=None):
+                 write_through=False, on_call=None, strict=True, short_write=None, flush_fail_at=()):
         self.name = name
         self.log = log
         self.screen = screen
@@ -35,6 +35,9 @@ class SimFile(object):
         self.strict = strict
         self.short_write = short_write       # fault: f(string) -> number of characters this write() accepts
         self.short_writes = 0
+        self.flush_fail_at = set(flush_fail_at)  # fault: these flush() calls are interrupted (EINTR); the
+        self.n_flushes = 0                       # text stays in the buffer and goes out with the next flush
+        self.faults_fired = 0
         self.write_through = write_through   # like a console stream: every write() reaches the device at once
         self.on_call = on_call               # called at every write() of the file object (a scheduling point)
         self.closed = False
@@ -69,6 +72,12 @@ class SimFile(object):
     def flush(self):
         if self.closed:
             raise ValueError("I/O operation on closed file.")
+        idx = self.n_flushes
+        self.n_flushes += 1
+        if idx in self.flush_fail_at:
+            self.faults_fired += 1
+            self.log.add("flush_fault", self.name, "EINTR")
+            raise InterruptedError(4, "simulated: Interrupted system call")
         self._deliver()
 
     def _deliver(self):
